@@ -70,7 +70,7 @@ IMAGE_SLOTS = ("image-name", "image-in-form", "form-name")
 OTYPES = ["text", "xml", "html"]
 
 BOUNDS = {
-    "quick": "11 slots x 19 hostile strings (image slots x 7 export kinds) x output type text; + xml/html for image-name; + inline image and benign baselines; + 17 late-sentinel cases (files appearing after the ImageWriter exists); + 6 CMap slots x 5 names with CMAP_PATH unset and decoys in the working directory",
+    "quick": "11 slots x 19 hostile strings (image slots x 7 export kinds) x output type text; + xml/html for image-name; + inline image and benign baselines; + 17 late-sentinel cases (files appearing after the ImageWriter exists); + 6 CMap slots x 5 names with CMAP_PATH unset and decoys in the working directory; + CMAP_PATH in {'', '.', relative dir} x 5 slots x 6 names; + 10 symlink-inside-resource-dir cases; + 6 output-dir spellings (through a symlink + '..', relative, './', trailing slash) x 2 names x 2 kinds x existing/fresh",
     "thorough": "quick + all output types for every image case + all unordered slot pairs x 4x4 traversal strings",
 }
 
@@ -91,6 +91,8 @@ META = {
         "decoys are planted only where the joined path normalises to a location inside the harness tree and all intermediate directories of the un-normalised path exist; nothing is planted inside the repository",
         "CMapDB's per-process caches are cleared before every case so that a name loaded earlier cannot hide a later load",
         "Pillow is not installed: export paths that need it create their file and then raise ImportError; only file effects are judged, exceptions are recorded as outcome",
+        "symbolic links inside $CMAP_PATH that point out of it count as leaving the resource directory (the realpath containment of the implementation rejects them); none are planted inside the repository's own cmap directory",
+        "the chosen output directory is os.path.realpath(output_dir) evaluated in the caller's working directory before anything is created",
         "late-sentinel cases assemble the extract_text_to_fp pipeline from the public classes (ImageWriter, converter, PDFPageInterpreter) to drop files between writer construction and export",
         "with CMAP_PATH unset, reads under the documented default /usr/share/pdfminer would be allowed (the directory does not exist here)",
         "inline image names are interpreter-generated (id()), not document-controlled; one inline case per export kind checks they stay inside the output dir",
@@ -125,7 +127,9 @@ def _hook(event: str, args: Tuple) -> None:
     rec = [a if isinstance(a, (str, bytes, int, type(None))) else repr(a) for a in args]
     if rec and isinstance(rec[0], (str, bytes)) and event not in ("subprocess.Popen", "os.system"):
         try:
-            rec[0] = os.path.abspath(os.fsdecode(rec[0]))  # relative names are resolved against the cwd of the moment
+            # relative names are anchored at the cwd of the moment; '..' components are kept, because the OS
+            # resolves them after following symbolic links, not lexically
+            rec[0] = os.path.join(os.getcwd(), os.fsdecode(rec[0]))
         except Exception:  # noqa
             pass
     _EVENTS.append((event, tuple(rec), fn))
@@ -331,7 +335,7 @@ class Tree:
                         pass
         return n
 
-    def plant_sentinels(self, names: List[str], ext: str) -> None:
+    def plant_sentinels(self, names: List[str], ext: str, out: Optional[str] = None) -> None:
         import re
 
         spellings = []
@@ -345,7 +349,7 @@ class Tree:
             for fn in (nm + ext, "%s.0%s" % (nm, ext)):
                 if "\0" in fn:
                     continue
-                for base in (self.out,):
+                for base in (out or self.out,):
                     tgt = os.path.normpath(os.path.join(base, fn))
                     if not tgt.startswith(self.root + os.sep) or len(os.path.basename(tgt)) > 200 or os.path.isdir(tgt):
                         continue
@@ -475,42 +479,100 @@ def run_case(case: Dict[str, Any]):
             cmap_names.append(h.strip() + "-Japan1")
         if s == "ordering":
             cmap_names.append("Adobe-" + h.strip())
-    cwd_mode = bool(case.get("cwd_mode"))
     late = bool(case.get("late_sentinels"))
+    chdir_to: Optional[str] = None
+    # ---- how the resource directory is configured
+    cmap_env = case.get("cmap_env") or ("unset" if case.get("cwd_mode") else None)
+    cwd_mode = cmap_env is not None
+    allowed_cmap: Optional[str] = t.cmap
+    env_value: Optional[str] = t.cmap
+    if cmap_env:
+        chdir_to = t.cwd
+        env_value = {"unset": None, "empty": "", "dot": ".", "rel": "relcmaps"}[cmap_env]
+        os.makedirs(os.path.join(t.cwd, "relcmaps"), exist_ok=True)
+        # unset: the working directory is no resource directory at all; otherwise the user named it (relative to the cwd)
+        allowed_cmap = None if env_value is None else os.path.realpath(os.path.join(t.cwd, env_value))
+    # ---- symbolic links an administrator might have inside the resource directory, pointing out of it
+    sym = case.get("symlinks")
+    if sym == "dir":
+        os.symlink(t.abs, os.path.join(t.cmap, "shared"))
+    elif sym == "file":
+        k = 0
+        for nm in cmap_names:
+            for fname in (nm + ".pickle.gz", "to-unicode-" + nm + ".pickle.gz"):
+                if "/" in fname or "\0" in fname:
+                    continue
+                target = os.path.join(t.abs, "target-%d.pickle.gz" % k)
+                k += 1
+                with open(target, "wb") as f:
+                    f.write(_gz_pickle(DECOY_UMAP if fname.startswith("to-unicode-") else DECOY_CMAP))
+                if not os.path.lexists(os.path.join(t.cmap, fname)):
+                    os.symlink(target, os.path.join(t.cmap, fname))
     planted = t.plant_cmap_decoys(cmap_names)
-    if cwd_mode:
-        # default configuration: CMAP_PATH unset, and files named like the document's CMaps lie in the working directory
-        planted += t.plant_cmap_decoys(cmap_names, bases=(t.cwd,))
+    if cmap_env:
+        # files named like the document's CMaps lie in (or relative to) the working directory / the named directory
+        planted += t.plant_cmap_decoys(cmap_names, bases=(t.cwd,) if allowed_cmap is None else (allowed_cmap, t.cwd))
+    # ---- how the caller spells the output directory
+    sp = case.get("out_spelling")
+    ab = os.path.dirname(t.out)  # ROOT/a/b
+    outdir_arg = t.out
+    if sp:
+        os.makedirs(os.path.join(ab, "real", "sub"))
+        os.symlink(os.path.join(ab, "real", "sub"), os.path.join(ab, "link"))
+        if sp == "symlink-dotdot":
+            outdir_arg = os.path.join(ab, "link", "..", "out")
+        elif sp == "symlink-dotdot-rel":
+            chdir_to, outdir_arg = ab, os.path.join("link", "..", "out")
+        elif sp == "relative":
+            chdir_to, outdir_arg = ab, "out"
+        elif sp == "dot-slash-rel":
+            chdir_to, outdir_arg = ab, "./out/"
+        elif sp == "trailing-slash":
+            outdir_arg = t.out + "/"
+        elif sp == "dot-slash":
+            outdir_arg = os.path.join(ab, ".", "out")
+        else:
+            raise ValueError(sp)
+    # the directory the caller chose, resolved the way the OS resolves it, before anything is created
+    out_real = os.path.realpath(os.path.join(chdir_to or os.getcwd(), outdir_arg))
+    if not out_real.startswith(t.root + os.sep):
+        raise RuntimeError("harness: output directory outside the harness tree")
+    os.makedirs(out_real, exist_ok=True)
+    # where a purely lexical reading of the caller's path would point (differs from out_real only through symlinks)
+    out_lexical = os.path.normpath(os.path.join(chdir_to or os.getcwd(), outdir_arg))
     img_names = [h for s, h in slots if s in ("image-name", "image-in-form")] + (["Im0"] if any(s == "form-name" for s, _ in slots) else [])
     if not late:
-        t.plant_sentinels(img_names, EXT[kind])
+        t.plant_sentinels(img_names, EXT[kind], out_real)
     if case.get("fresh_out"):
-        shutil.rmtree(t.out)  # output directory does not exist yet: ImageWriter may create it (and only it)
+        shutil.rmtree(out_real)  # output directory does not exist yet: ImageWriter may create it (and only it)
     snap = [t.snapshot()]
     _clear_caches()
     del _EVENTS[:]
     old_cwd = os.getcwd()
-    if cwd_mode:
-        os.environ.pop("CMAP_PATH", None)
-        os.chdir(t.cwd)
+    if cmap_env:
+        if env_value is None:
+            os.environ.pop("CMAP_PATH", None)
+        else:
+            os.environ["CMAP_PATH"] = env_value
+    if chdir_to:
+        os.chdir(chdir_to)
 
     def plant_late():
         _ARMED[0] = False
-        t.plant_sentinels(img_names, EXT[kind])
+        t.plant_sentinels(img_names, EXT[kind], out_real)
         snap[0] = t.snapshot()
         _ARMED[0] = True
 
     _ARMED[0] = True
     try:
         if late:
-            exc = _extract_late(pdf, t.out, otype, plant_late)
+            exc = _extract_late(pdf, outdir_arg, otype, plant_late)
         else:
-            exc = _extract(pdf, None if case.get("no_export") else t.out, otype)
+            exc = _extract(pdf, None if case.get("no_export") else outdir_arg, otype)
     finally:
         _ARMED[0] = False
-        if cwd_mode:
-            os.chdir(old_cwd)
-            os.environ["CMAP_PATH"] = t.cmap
+        os.chdir(old_cwd)
+        os.environ["CMAP_PATH"] = t.cmap
     before = snap[0]
     events = list(_EVENTS)
     after = t.snapshot()
@@ -535,17 +597,17 @@ def run_case(case: Dict[str, Any]):
                 out_abs.append(("open-fd", "fd"))
                 continue
             writing = bool(flags & (os.O_WRONLY | os.O_RDWR | os.O_CREAT | os.O_TRUNC | os.O_APPEND)) or (isinstance(mode, str) and any(c in mode for c in "wax+"))
-            ap = os.path.abspath(path)
+            ap = path if os.path.isabs(path) else os.path.abspath(path)  # anchored by the hook; '..' kept for realpath
             if not writing and ap.endswith((".py", ".pyc")):
                 imports += 1
                 continue
             if t.inside(ap, t.lib):
                 cls = "libcmap"
-            elif cwd_mode and t.inside(ap, DEFAULT_CMAP_DIR):
+            elif cmap_env == "unset" and t.inside(ap, DEFAULT_CMAP_DIR):
                 cls = "cmappath"  # the documented default resource directory
-            elif t.inside(ap, t.cmap) and not cwd_mode:
+            elif allowed_cmap is not None and t.inside(ap, allowed_cmap):
                 cls = "cmappath"
-            elif t.inside(ap, t.out):
+            elif t.inside(ap, out_real):
                 cls = "outdir"
             elif t.inside(ap, t.root):
                 cls = "tree-outside"
@@ -562,7 +624,10 @@ def run_case(case: Dict[str, Any]):
                         add(f"C15/read-outside-allowed@{fn.split('>')[-1]}", "reads only inside pdfminer/cmap and $CMAP_PATH", {"opened": rel, "via": fn}, "file opened for reading outside the allowed directories")
             else:
                 if cls != "outdir":
-                    if "ImageWriter" in fn or "_save_" in fn or "export_image" in fn:
+                    if sp and out_lexical != out_real and os.path.dirname(os.path.normpath(ap)) == out_lexical:
+                        add("C15/output-dir-not-the-one-chosen", "files created only inside output_dir (as the OS resolves it)", {"opened_for_writing": rel, "chosen": out_real.replace(t.root, ROOT_TOKEN), "via": fn},
+                            "image written into a directory other than the one the caller's output_dir resolves to")
+                    elif "ImageWriter" in fn or "_save_" in fn or "export_image" in fn:
                         add("C15/image-name-escapes-output-dir", "files created only inside output_dir", {"opened_for_writing": rel, "via": fn},
                             "ImageWriter joined the XObject name into a path outside the output directory and created the file there")
                     else:
@@ -574,9 +639,9 @@ def run_case(case: Dict[str, Any]):
         elif ev in ("os.scandir", "os.listdir"):
             out_abs.append((ev, fn.split(">")[-1]))
         elif ev == "os.mkdir":
-            p_ = os.path.abspath(os.fsdecode(args[0]) if isinstance(args[0], bytes) else str(args[0]))
-            out_abs.append((ev, "outdir" if t.inside(p_, t.out) else "other"))
-            if not t.inside(p_, t.out):
+            p_ = os.fsdecode(args[0]) if isinstance(args[0], bytes) else str(args[0])
+            out_abs.append((ev, "outdir" if t.inside(p_, out_real) else "other"))
+            if not t.inside(p_, out_real):
                 add("C15/mkdir-outside-output-dir", "directories created only inside output_dir", {"mkdir": p_.replace(t.root, ROOT_TOKEN), "via": fn}, "directory created outside the output directory")
         else:
             out_abs.append((ev, fn.split(">")[-1]))
@@ -591,7 +656,10 @@ def run_case(case: Dict[str, Any]):
     for p_ in created:
         if case.get("no_export"):
             add("C15/write-without-image-export", "no file created when output_dir is not given", {"created": p_.replace(t.root, ROOT_TOKEN)}, "a new file exists although image export is disabled")
-        elif not t.inside(p_, t.out):
+        elif not t.inside(p_, out_real) and sp and out_lexical != out_real and (p_.rstrip(os.sep) == out_lexical or os.path.dirname(p_.rstrip(os.sep)) == out_lexical):
+            add("C15/output-dir-not-the-one-chosen", "files created only inside output_dir (as the OS resolves it)",
+                {"created": p_.replace(t.root, ROOT_TOKEN), "chosen": out_real.replace(t.root, ROOT_TOKEN)}, "a new file or directory exists where a lexical reading of output_dir points, not in the directory it resolves to")
+        elif not t.inside(p_, out_real):
             add("C15/image-name-escapes-output-dir" if not p_.endswith(os.sep) else "C15/mkdir-outside-output-dir", "files created only inside output_dir",
                 {"created": p_.replace(t.root, ROOT_TOKEN)}, "a new file exists outside the output directory after processing")
     outcome = (tuple(out_abs), exc, len(created))
@@ -620,6 +688,25 @@ def _cases(tier: str) -> List[Dict[str, Any]]:
     for slot in ("type0-encoding", "cmap-stream-name", "usecmap-tounicode-type0", "usecmap-tounicode-simple", "registry", "ordering"):
         for nm in ("evil", "sub/evil", "up1", "abs", "90ms-RKSJ-H"):
             cs.append({"slots": [(slot, nm)], "kind": "bmp1", "otype": "text", "cwd_mode": True})
+    # CMAP_PATH set to the empty string, to '.', to a relative directory: only that directory (resolved) is a resource directory
+    for env in ("empty", "dot", "rel"):
+        for slot in ("type0-encoding", "usecmap-tounicode-simple", "cmap-stream-name", "usecmap-tounicode-type0", "registry"):
+            for nm in ("evil", "sub/evil", "up1", "up2", "abs", "abs-up"):
+                cs.append({"slots": [(slot, nm)], "kind": "bmp1", "otype": "text", "cmap_env": env})
+    # symbolic links inside the resource directory that point out of it are not followed
+    for slot in ("type0-encoding", "cmap-stream-name", "usecmap-tounicode-type0", "usecmap-tounicode-simple"):
+        cs.append({"slots": [(slot, "shared/evil")], "kind": "bmp1", "otype": "text", "symlinks": "dir"})
+    for slot in ("type0-encoding", "cmap-stream-name", "usecmap-tounicode-type0", "usecmap-tounicode-simple", "registry", "ordering"):
+        cs.append({"slots": [(slot, "Alias")], "kind": "bmp1", "otype": "text", "symlinks": "file"})
+    # spellings of the output directory: files go where the OS resolves the caller's path, nowhere else
+    for sp in ("symlink-dotdot", "symlink-dotdot-rel", "relative", "dot-slash-rel", "trailing-slash", "dot-slash"):
+        for nm in ("Im0", "up1"):
+            for kind in ("bmp1", "jpg"):
+                for fresh in (False, True):
+                    c = {"slots": [("image-name", nm)], "kind": kind, "otype": "text", "out_spelling": sp}
+                    if fresh:
+                        c["fresh_out"] = True
+                    cs.append(c)
     for slot in SLOTS:
         kinds = IMAGE_KINDS if slot in IMAGE_SLOTS else ["bmp1"]
         for hk, _ in HOSTILE:
@@ -684,7 +771,8 @@ def _run_cases(cs, shard, st):
 def replay(case):
     c = {"slots": [tuple(x) for x in case["slots"]], "kind": case["kind"], "otype": case["otype"], "inline": case.get("inline", False),
          "fresh_out": case.get("fresh_out", False), "no_export": case.get("no_export", False),
-         "late_sentinels": case.get("late_sentinels", False), "cwd_mode": case.get("cwd_mode", False)}
+         "late_sentinels": case.get("late_sentinels", False), "cwd_mode": case.get("cwd_mode", False),
+         "cmap_env": case.get("cmap_env"), "symlinks": case.get("symlinks"), "out_spelling": case.get("out_spelling")}
     try:
         viol, _, _ = run_case(c)
     finally:
